@@ -30,6 +30,7 @@ type conn struct {
 	c       net.Conn
 	proto   ProtocolInfo
 	open    bool
+	closed  bool
 	options map[string]interface{}
 	maxrx   int
 	sync.Mutex
@@ -93,11 +94,14 @@ func (p *conn) Send(msg *Message) error {
 func (p *conn) Close() error {
 	p.Lock()
 	defer p.Unlock()
-	if p.open {
-		p.open = false
-		return p.c.Close()
+	if p.closed {
+		return nil
 	}
-	return nil
+	// Close the connection also when the handshake has not finished
+	// yet: that is how a handshaker cancels a negotiation.
+	p.closed = true
+	p.open = false
+	return p.c.Close()
 }
 
 func (p *conn) GetOption(n string) (interface{}, error) {
